@@ -1,6 +1,5 @@
 """CSS matcher."""
 from __future__ import annotations
-from datetime import datetime
 from . import util
 import re
 from . import css_types as ct
@@ -447,7 +446,16 @@ class Inputs:
     def validate_week(year: int, week: int) -> bool:
         """Validate week."""
 
-        max_week = datetime.strptime(f"{12}-{31}-{year}", "%m-%d-%Y").isocalendar()[1]
+        # ISO 8601 week containing December 31, computed arithmetically so that any year >= 1 works
+        # (`strptime` only handles years 1000-9999). Weekdays are 0 = Sunday ... 6 = Saturday.
+        prev = year - 1
+        dec31 = (year + year // 4 - year // 100 + year // 400) % DAYS_IN_WEEK
+        prev_dec31 = (prev + prev // 4 - prev // 100 + prev // 400) % DAYS_IN_WEEK
+        if 1 <= dec31 <= 3:
+            # December 31 already belongs to week 1 of the next year
+            max_week = 1
+        else:
+            max_week = 53 if dec31 == 4 or prev_dec31 == 3 else 52
         if max_week == 1:
             max_week = 53
         return 1 <= week <= max_week
